@@ -587,8 +587,9 @@ PLANS = {
                 "up to 2^63-1, all-ones digests, snapshots / signed batches (JSON), gossip messages (msgpack), answers for versions beyond current"),
     "C14": plan("model_checking", [mc_store, store_tv_stage], RULE_STORE),
     "C15": plan("model_checking", [mc_logstore, logstore_tv_stage], RULE_LOGSTORE),
-    "C05": plan("model_checking", [mc_cluster, cluster_tv("replicas", 6, 12), cluster_tv("restore", 3, 8), crashcluster_tv(2, 8), thorough_only(balloon_tv_stage)],
-                RULE_CLUSTER + "; plus 3-process clusters whose leader is SIGKILLed before/after the store write of an insertion"),
+    "C05": plan("model_checking", [mc_cluster, cluster_tv("replicas", 6, 12), cluster_tv("restore", 3, 8), cluster_tv("writers", 2, 6), crashcluster_tv(2, 8), thorough_only(balloon_tv_stage)],
+                RULE_CLUSTER + "; writers scenario: one client sends a bulk of 255 / 256 / 257 / 300..700 events while three others insert single events and small bulks "
+                "concurrently on a 3-node cluster (every call must get consecutive versions in request order; acknowledgements recorded in version order); plus 3-process clusters whose leader is SIGKILLed before/after the store write of an insertion"),
     "C06": plan("model_checking", [mc_cluster, cluster_tv("replicas", 6, 16), cluster_tv("restore", 3, 8), crashcluster_tv(2, 8)],
                 RULE_CLUSTER + "; plus 3-process clusters whose leader is SIGKILLed mid-insertion, re-election, restart and catch-up by log replay"),
     "C07": plan("fault_enumeration", [mc_cluster, crash_tv("kill", 8, 16), crashcluster_tv(3, 12)], RULE_CLUSTER + "; fault enumeration: a child process hosting a real "
